@@ -46,10 +46,15 @@ func (t fasttime) reached() bool {
 func makeDeadline(d time.Duration) fasttime {
 	// Increase the deadline since the clock we are reading may be
 	// just about to tick forwards.
+	//
+	// clockEnd is read before current: a concurrent caller that restarts a
+	// stopped clock refreshes current before it extends clockEnd, so a
+	// clockEnd that covers our end implies that the current we read is live.
+	clockEnd := fast.clockEnd.read()
 	end := fast.current.read() + durationToTicks(d+clockPeriod)
 
 	// Start or extend clock if necessary.
-	if end > fast.clockEnd.read() {
+	if end > clockEnd {
 		verifPoint(verifPtMakeDeadline)
 		// If time.Since(last use) > timeout, there's a chance that
 		// fast.current will no longer be updated, which can lead to
@@ -58,9 +63,11 @@ func makeDeadline(d time.Duration) fasttime {
 		if !fast.running && !fast.start.IsZero() {
 			// update fast.current
 			fast.current.write(durationToTicks(time.Since(fast.start)))
-			// recalculate our end value
-			end = fast.current.read() + durationToTicks(d+clockPeriod)
 		}
+		// recalculate our end value: fast.current may have been stale when we read
+		// it above, and refreshed since by us or by a concurrent caller that
+		// restarted the clock while we were waiting for the lock
+		end = fast.current.read() + durationToTicks(d+clockPeriod)
 		fast.mu.Unlock()
 		extendClock(end)
 	}
